@@ -31,7 +31,7 @@ def gen(rnd):
     # (selection given by the caller as masks: a chain's ends are then eliminated, dividing by little more than atol — a tolerance of 0.1 keeps that benign)
     as_masks = rnd.random() < 0.25
     atol = rnd.choice([1e-3, 2.0 ** -10, 1e-6, 1e-12]) if not as_masks else 0.1
-    N = rnd.choice([1, 1, 2, 2, 3]); k = rnd.choice([1, 1, 2])
+    N = rnd.choice([1, 1, 2, 2, 3]); k = rnd.choice([1, 1, 2, 3])      # (three parameters: orders mixed in the second and third one)
     sizes = []; levels = []; groups = []; base = 0.0
     for b in range(N):
         lv = []; ngroups = rnd.randint(1, 2) if b == 0 else rnd.choice([0, 1])
